@@ -20,3 +20,29 @@ M.contract('xtuml.meta.MetaModel.select_many', [('self', MM), ('kind', STR), ('*
            requires={'class-known': 'upper(kind) in self.metaclasses'},
            ensures={'pool-in-creation-order': 'implies(len(args) == 0, result is not None and fresh(result) and result.view == self.metaclasses[upper(kind)].storage)'},
            modifies=[], ghost={'allocates': True})
+
+# ---- equality filters
+WE = RefT('WhereEqual')
+M.fields({'WhereEqual._dict_': MapT(STR, VAL)})
+M.klass('WhereEqual', dictfield='_dict_')
+M.uninterpreted('attr_value', [INST, STR], VAL)
+M.klass('Class', getattr='builtins.getattr@Class')
+M.contract('builtins.getattr@Class', [('obj', INST), ('name', STR)], returns=VAL, trusted=True,
+           reason='PY-6: attribute read of an instance under any spelling; pure (contracts.c10 proves Class.__getattr__ against the CPython lookup)',
+           ensures={'value': 'result == attr_value(obj, name)'}, modifies=[])
+M.uninterpreted('wmatch', [INST, WE], BOOL)
+M.axiom('wmatch-definition',
+        'all(all(wmatch(x, w) == all(attr_value(x, map_keys(w._dict_)[j]) == w._dict_[map_keys(w._dict_)[j]] '
+        'for j in range(0, len(map_keys(w._dict_)))) for x in anyref("Class")) for w in anyref("WhereEqual"))')
+M.assume('definition of wmatch(inst, w) (all items of the filter equal the attribute values) is evaluated on the entry heap: '
+         'sound here because no function under contract in contracts.c09 modifies a WhereEqual dictionary')
+M.spec('''
+def filtered(s, w, k):
+    return [] if k <= 0 else (filtered(s, w, k - 1) + [s[k - 1]] if wmatch(s[k - 1], w) else filtered(s, w, k - 1))
+''', sorts={'filtered': ([SeqT(INST), WE, INT], SeqT(INST), [])})
+M.contract('xtuml.meta.WhereEqual.__call__', [('self', WE), ('s', SeqT(INST))], kind='generator', yields=INST, tiers=(),
+           ensures={'exactly-the-matching-instances-in-order': 'result == filtered(s, self, len(s))'},
+           modifies=[],
+           loops={0: Loop(inv={'matching-prefix-yielded': '_yielded == filtered(s, self, _i)', 'iterates': '_seq == s',
+                               'items': 'len(items) == len(map_keys(self._dict_)) and all(items[j][0] == map_keys(self._dict_)[j] and items[j][1] == self._dict_[map_keys(self._dict_)[j]] for j in range(0, len(items)))'}),
+                  1: Loop(inv={'all-earlier-items-match': 'all(attr_value(inst, map_keys(self._dict_)[j]) == self._dict_[map_keys(self._dict_)[j]] for j in range(0, _i))', 'iterates': '_seq == items'})})
